@@ -41,6 +41,12 @@ claimed = {
  "C09": dict(cat="exploration", ref="5/C09",
    text="Seeded handler programs over the real Response / flushResponse code, wire bytes decoded by net/http as independent client and compared with a reference model of the handler's intent; write sizes target the 64 KiB flush threshold; a separate quarter of the batch injects transport write failures with a narrowly relaxed oracle.",
    tech="seeded operation-sequence search with transport fault injection, reference model of handler intent + independent decoder"),
+ "C10": dict(cat="exploration", ref="5/C10",
+   text="nbhttp.Engine on the simulated kernel in all three I/O modes and epoll modes with 1-4 concurrent raw simulated clients (pipelining, segmentation, bodies around internal thresholds, HTTP/1.0 and 1.1, keep-alive/close); per connection the received stream must decode to exactly one answer per request, in order, each echoing its request's unique id and keyed body; handlers of one connection never overlap; connections are kept or closed as dictated. TLS and the nbhttp.Client callback clause are NOT explored by this check.",
+   tech="deterministic simulation: seeded scheduler + simulated kernel with short writes/reads and in-flight delivery, request/response id matching via an independent HTTP decoder"),
+ "C14": dict(cat="exploration", ref="5/C14",
+   text="nbhttp.Engine + websocket.Upgrader on the simulated kernel: three upgrade paths x epoll modes, compliant simulated clients that may send immediately after the 101, 0-4 concurrent WriteMessage goroutines per connection with fragmentation, connections ending by close frame, reset or application Close; callback-grammar oracle (open completes first, messages in wire order without overlap, close exactly once and last) and peer-side frame oracle (whole messages, contiguous fragments, exactly once). The HandleRead path (std net/http connections) and TLS are NOT explored.",
+   tech="deterministic simulation: seeded interleaving + fault search with callback-grammar and independent frame-codec oracles"),
  "C11": dict(cat="exploration", ref="5/C11",
    text="Ownership-tracking allocator (never recycles, poisons on Free, quarantines) installed at the public allocator seam while seeded HTTP handler programs, WebSocket round trips, byzantine frame sequences, corrupted request streams and limit scenarios run with transport failures; flags double free, use/append after free, foreign free, write after free and poison on the wire. Single-threaded: close races are out of reach of this check.",
    tech="deterministic simulation with transport fault injection and an ownership-tracking allocator as runtime oracle"),
